@@ -1,60 +1,10 @@
-"""C06: once all senders returned no event is left unprocessed (threads, one pre-emption)."""
-import sys; sys.path.insert(0, sys.argv[1] if len(sys.argv) > 1 else "/repo")
-import threading, warnings, os
+"""C06: once all senders returned no event is left unprocessed (threads, one pre-emption at any line of the package)."""
+import os, sys, warnings
+sys.path.insert(0, sys.argv[1] if len(sys.argv) > 1 else "/repo")
+sys.path.insert(1, os.path.dirname(os.path.dirname(os.path.abspath(__file__))))   # /verif, for the cooperative scheduler
 warnings.simplefilter("ignore")
 from statemachine import StateMachine, State
-import statemachine
-PKG = os.path.dirname(os.path.abspath(statemachine.__file__)) + os.sep
-
-class Sched:
-    """Only one worker runs at a time. At every traced line in TARGET files the running worker asks
-    the scheduler whether to switch. schedule: dict step_index -> worker to switch to."""
-    def __init__(self, nworkers, preempt_at):
-        self.sems = [threading.Semaphore(0) for _ in range(nworkers)]
-        self.alive = [True]*nworkers
-        self.current = 0
-        self.step = 0
-        self.preempt_at = preempt_at   # {step: target}
-        self.trace_log = []
-    def tracer(self, wid):
-        def local(frame, event, arg):
-            if event == "line":
-                self.point(wid, f"{os.path.basename(frame.f_code.co_filename)}:{frame.f_lineno}")
-            return local
-        def glob(frame, event, arg):
-            if event == "call" and frame.f_code.co_filename.startswith(PKG):
-                return local
-            return None
-        return glob
-    def point(self, wid, where):
-        self.step += 1
-        self.trace_log.append((self.step, wid, where))
-        tgt = self.preempt_at.get(self.step)
-        if tgt is not None and tgt != wid and self.alive[tgt]:
-            self.current = tgt
-            self.sems[tgt].release()
-            self.sems[wid].acquire()
-    def run(self, bodies):
-        threads = []
-        def worker(wid, body):
-            self.sems[wid].acquire()
-            sys.settrace(self.tracer(wid))
-            try:
-                body()
-            finally:
-                sys.settrace(None)
-                self.alive[wid] = False
-                # hand over to any alive worker
-                for j in range(len(bodies)):
-                    if self.alive[j]:
-                        self.current = j
-                        self.sems[j].release()
-                        break
-        for i, b in enumerate(bodies):
-            t = threading.Thread(target=worker, args=(i, b)); t.start(); threads.append(t)
-        self.sems[0].release()
-        for t in threads: t.join(10)
-        assert not any(t.is_alive() for t in threads), "deadlock"
+from vcheck.sched import ThreadSched
 
 class M(StateMachine):
     a = State(initial=True)
@@ -62,23 +12,18 @@ class M(StateMachine):
     def __init__(self): self.log = []; super().__init__()
     def on_tick(self, who): self.log.append(who)
 
-# first: count steps of a single run
-sm = M()
-s = Sched(2, {})
-s.run([lambda: sm.tick(who=0), lambda: sm.tick(who=1)])
+def run(schedule):
+    sm = M()
+    s = ThreadSched(2, schedule)
+    s.run([lambda: sm.tick(who=0), lambda: sm.tick(who=1)])
+    return s, sm
+
+s, sm = run([])
 nsteps = s.step
-print("steps:", nsteps, "log", sm.log)
 stranded = []
-for k in range(1, nsteps+1):
-    for back in [None]:  # (the defect shows with a single pre-emption; switch-backs are explored by the C06 check itself)
-        sm = M()
-        pre = {k: 1}
-        if back: pre[back] = 0
-        s = Sched(2, pre)
-        s.run([lambda: sm.tick(who=0), lambda: sm.tick(who=1)])
-        q = 0
-        if q or sorted(sm.log) != [0, 1]:
-            stranded.append((k, back, q, sm.log, [x for x in s.trace_log if x[0] in (k-1, k)]))
-print("violations:", len(stranded))
-for x in stranded[:5]: print(x)
-assert not stranded, stranded[:2]
+for k in range(1, nsteps + 1):
+    s, sm = run([(k, 1)])
+    if sorted(sm.log) != [0, 1]:
+        stranded.append((k, sm.log))
+print("steps:", nsteps, "violations:", len(stranded))
+assert not stranded, stranded[:3]
